@@ -126,7 +126,6 @@ func (token *Stateful) NeedsUsername() bool {
 	return token.Username == nil
 }
 
-
 // called locked
 func (state *state) reset() {
 	state.modTime = time.Time{}
@@ -431,17 +430,23 @@ func (state *state) Expire() error {
 	now := time.Now()
 	cutoff := now.Add(-time.Hour * 24 * 7)
 
-	modified := false
+	var removed []*Stateful
 	for k, t := range state.tokens {
 		if t.Expires != nil && t.Expires.Before(cutoff) {
 			delete(state.tokens, k)
-			modified = true
+			removed = append(removed, t)
 		}
 	}
 
-	if modified {
+	if len(removed) > 0 {
 		err := state.rewrite()
 		if err != nil {
+			// the file still has them, so should we
+			if state.tokens != nil {
+				for _, t := range removed {
+					state.tokens[t.Token] = t
+				}
+			}
 			return err
 		}
 	}
